@@ -146,7 +146,8 @@ def execute(cfg, threads_prog, strat_spec, sched_seed, pre_steps, ctx_spec=None,
         lib.lock_labels()
         rng = stream(sched_seed, "sched")
         strat = TS.make_strategy(strat_spec, rng, len(threads_prog))
-        sched = TS.Sched(strat, ns.libdir + "/", step_cap=step_cap, opcode=bool(cfg.get("opcode")))
+        # (bytecode-level tracing executes roughly ten times as many pre-emption points per library line)
+        sched = TS.Sched(strat, ns.libdir + "/", step_cap=step_cap * (12 if cfg.get("opcode") else 1), opcode=bool(cfg.get("opcode")))
         history = []
         SC = ns.SyncedCollection
 
